@@ -358,6 +358,87 @@ func c18Exec(t *testing.T, p *Plan, pairs []c18Pair, faults map[string]string) (
 	return
 }
 
+// c18Grow keeps one sumdb.FeedLog alive (polling mode) while the stub log grows through a sequence of sizes.
+func c18Grow(t *testing.T, p *Plan, sizes []uint64) (viol []Violation, infra string, st Stats) {
+	st = newStats()
+	defer func() {
+		if x := recover(); x != nil {
+			infra = fmt.Sprintf("bubble ended abnormally: %v", x)
+			dumpGoroutines()
+		}
+	}()
+	synctest.Test(t, func(t *testing.T) {
+		pinGlobalRand(p.Seed)
+		w := NewWorld(p)
+		ld := w.Logs[0]
+		tree := c18Tree(p.Cfg.Dense, uint64(p.Cfg.Extra["treeseed"]))
+		ld.Branches[0] = tree
+		stub := &tileStub{tree: tree, origin: ld.Origin, key: ld.Key, world: w, keyIdx: ld.KeyIdx, kind: "sumdb", size: sizes[0]}
+		sn := NewSimNet()
+		sn.Hosts["sum.example"] = stub
+		hc := &http.Client{Transport: sn, Timeout: 10 * time.Second}
+		cl, err := config.NewLog(ld.Origin, ld.Key.VerifierString(), "http://sum.example")
+		if err != nil {
+			infra = err.Error()
+			return
+		}
+		known, _ := w.KnownLogs()
+		signers, _ := w.Signers()
+		realW, err := witness.New(witness.Opts{Persistence: inmemory.NewPersistence(), Signers: signers, KnownLogs: known})
+		if err != nil {
+			infra = err.Error()
+			return
+		}
+		rw := &recWitness{in: omniwitness.VerifWitnessAdapter(realW)}
+		ctx, cancel := context.WithCancel(context.Background())
+		done := make(chan error, 1)
+		interval := 10 * time.Second
+		go func() { done <- sumdb.FeedLog(ctx, cl, rw, hc, interval) }()
+		checked := 0
+		for _, size := range sizes {
+			stub.mu.Lock()
+			stub.size = size
+			stub.mu.Unlock()
+			time.Sleep(3*interval + time.Second)
+			synctest.Wait()
+			cur, _ := realW.GetCheckpoint(ld.ID)
+			if got := parseStored(cur); !got.Has || got.Size != size {
+				viol = append(viol, Violation{Class: "proof_rejected", Sig: "proof_rejected/polling_feeder_stuck", Detail: fmt.Sprintf("one FeedLog lifetime, log sizes %v: after the log reached %d the witness still serves {%s} three poll intervals later", sizes, size, cpBrief(got))})
+				break
+			}
+			for _, c := range rw.calls[checked:] {
+				stt := parseStored(c.CP)
+				if c.Old == 0 || stt.Bad || c.Old >= stt.Size {
+					continue
+				}
+				fr, to := tree.Root(c.Old), tree.Root(stt.Size)
+				if !RefVerifyConsistency(c.Old, stt.Size, c.Proof, fr[:], to[:]) {
+					viol = append(viol, Violation{Class: "proof_rejected", Sig: "proof_rejected/polling", Detail: fmt.Sprintf("one FeedLog lifetime, log sizes %v: the proof submitted for %d -> %d is rejected by the reference verifier (witness said %v)", sizes, c.Old, stt.Size, c.Err)})
+				}
+			}
+			checked = len(rw.calls)
+			if len(viol) > 0 {
+				break
+			}
+		}
+		cancel()
+		for i := 0; i < 60; i++ {
+			synctest.Wait()
+			select {
+			case <-done:
+				i = 1000
+			default:
+				time.Sleep(time.Second)
+			}
+		}
+		st.Probes["tile_requests_served"] += stub.served
+		st.Probes["polling_growth_steps"] += len(sizes)
+		time.Sleep(time.Minute)
+		synctest.Wait()
+	})
+	return
+}
+
 func c18Paths(t *testing.T, p *Plan) (viol []Violation, infra string, st Stats, evals int) {
 	st = newStats()
 	w := NewWorld(p)
@@ -430,7 +511,7 @@ func init() {
 	register(&Scenario{
 		Prop:  "C18",
 		Level: "exploration",
-		Rule:  "three batches by run number. paths: the real SumDB client issues full/partial hash-tile and data-tile requests (levels 0..7, widths 1..256, indices over 0..10^9 with every carry boundary of the x%03d encoding) to a recording stub behind simnet; the requested path must equal tlog.Tile.Path (cross-checked with a harness implementation from the c2sp spec). proofs: the real sumdb.FeedLog (one shot) against a stub SumDB served from the reference tree and a real witness holding size 'from'; thorough enumerates ALL pairs 1 <= from < to <= 1200 and then samples pairs up to 2^20, quick samples with a boundary bias (255/256/257, 511/512, 65535/65536); the proof reaching the witness must be accepted by the RFC 9162 reference verifier and by the witness. faults: failed, truncated, corrupted, garbage and oversized tile/checkpoint responses; whatever is submitted must still be a valid proof, and the cycle must end. non-trivial = a pair whose proof needed at least one tile fetch; distinct = distinct (from, to) pairs or (level, index-class, width-class) triples",
+		Rule:  "four batches by run number. paths: the real SumDB client issues full/partial hash-tile and data-tile requests (levels 0..7, widths 1..256, indices over 0..10^9 with every carry boundary of the x%03d encoding) to a recording stub behind simnet; the requested path must equal tlog.Tile.Path (cross-checked with a harness implementation from the c2sp spec). proofs: the real sumdb.FeedLog (one shot) against a stub SumDB served from the reference tree and a real witness holding size 'from'; thorough enumerates ALL pairs 1 <= from < to <= 1200 and then samples pairs up to 2^20, quick samples with a boundary bias (255/256/257, 511/512, 65535/65536); the proof reaching the witness must be accepted by the RFC 9162 reference verifier and by the witness. polling: one long-lived FeedLog with a poll interval while the log grows through 3..7 sizes (partial tiles widen between polls), the witness must reach every size within 3 intervals. faults: failed, truncated, corrupted, garbage and oversized tile/checkpoint responses; whatever is submitted must still be a valid proof, and the cycle must end. non-trivial = a pair whose proof needed at least one tile fetch; distinct = distinct (from, to) pairs or (level, index-class, width-class) triples",
 		Total: func(tier string) uint64 {
 			if tier == "thorough" {
 				return c18AllPairs/c18Batch + 1 + 60000
@@ -477,6 +558,18 @@ func init() {
 				}
 				n -= c18AllPairs/c18Batch + 1
 			}
+			if n%8 == 5 {
+				// one long-lived polling feeder while the log grows through several sizes (partial tiles widen between polls)
+				p.Cfg.Notes["mode"] = "grow"
+				cur := pick() % 70000
+				var ss []string
+				for i := 0; i < r.Range(3, 7); i++ {
+					cur += uint64(Pick(r, 1, 1, 2, 30, 60, 155, 255, 256, 257, 300, 1000, 65000))
+					ss = append(ss, fmt.Sprint(cur))
+				}
+				p.Cfg.Notes["sizes"] = strings.Join(ss, ",")
+				return p
+			}
 			switch n % 4 {
 			case 0:
 				p.Cfg.Notes["mode"] = "paths"
@@ -518,6 +611,21 @@ func init() {
 					out.Distinct = append(out.Distinct, k)
 				}
 				out.Events = []string{"paths"}
+				return out
+			case "grow":
+				var sizes []uint64
+				for _, x := range strings.Split(p.Cfg.Notes["sizes"], ",") {
+					var v uint64
+					fmt.Sscan(x, &v)
+					sizes = append(sizes, v)
+				}
+				v, infra, st := c18Grow(t, p, sizes)
+				out.Viol, out.Stats, out.Evals = v, st, len(sizes)
+				if infra != "" {
+					out.Infra = []string{infra}
+				}
+				out.Distinct = []string{"grow/" + p.Cfg.Notes["sizes"]}
+				out.Events = []string{"grow", p.Cfg.Notes["sizes"]}
 				return out
 			case "enum":
 				var ps []c18Pair
